@@ -218,7 +218,8 @@ class _CompositeApply(Contract):
                    "(their own bodies are the subject of the Lean theorems and of the PartFit contracts)")
         n = z3.Int("n_rows")
         I.path.assume(n >= 1)
-        x = base_arr("x_in", "row", n)
+        xdt = Sym(z3.Const("dtype_of_x", Misc), "dtype")
+        x = base_arr("x_in", "row", n, {"dtype": xdt})
         pm, bm = _mask("periodic_mask"), _mask("bounded_mask")
         o = Obj("CompositeTransform", {
             "xp": Mod("xp"), "device": NONE, "dtype": NONE,
@@ -236,7 +237,7 @@ class _CompositeApply(Contract):
         if not shape["B"]:
             o.absent.update({"bounded_mask", "_bounded_transform"})
             o.f.pop("bounded_mask"), o.f.pop("_bounded_transform")
-        return Pre(o, [x], {}, ghost={"x": x, "x_at": x.at, "pm": _mask_const(pm), "bm": _mask_const(bm), "shape": shape, "n": n})
+        return Pre(o, [x], {}, ghost={"x": x, "x_at": x.at, "pm": _mask_const(pm), "bm": _mask_const(bm), "shape": shape, "n": n, "xdt": xdt})
 
     def post(self, I, pre, r):
         p, g = I.path, pre.ghost
@@ -265,6 +266,9 @@ class _CompositeApply(Contract):
         p.prove(lj.at(i) == want_lj, f"{q}:C04:C03:log-Jacobian of {self.which} is the sum of the applied parts' log-Jacobians, each evaluated where that part was applied {tag}")
         # frame: the caller's array is not modified (the method works on a copy)
         p.prove(g["x"].at(i) == g["x_at"](i), f"{q}:C04:the input array is left unchanged {tag}")
+        allocs = [e for e in p.events if e[0] == "alloc"]
+        p.prove(z3.BoolVal(all(isinstance(e[2], Sym) and e[2].e.eq(g["xdt"].e) for e in allocs)),
+                f"{q}:C04:C15:the accumulator of the log-Jacobian is allocated in the floating-point width of the data (not the namespace default) {tag}")
 
 
 class CompositeForward(_CompositeApply):
